@@ -563,12 +563,13 @@ Definition legal_trace (t : list (cmd * res)) : bool :=
 
 (* accepted: the commands the server ACCEPTED form a word of the language's prefix closure *)
 (* results with which the server moved the branch on *)
-Definition acc (r : res) : bool := match r with ROk | RRb => true | _ => false end.
+Definition acc (c : cmd) (r : res) : bool :=
+  match r, c with ROk, _ => true | RRb, END_ => true | _, _ => false end.
 Fixpoint accepted_from (s : sst) (t : list (cmd * res)) : option sst :=
   match t with
   | [] => Some s
   | (c, r) :: t' =>
-      if acc r then match sstep s c with Some s' => accepted_from s' t' | None => None end
+      if acc c r then match sstep s c with Some s' => accepted_from s' t' | None => None end
       else accepted_from s t'
   end.
 Definition accepted_legal (t : list (cmd * res)) : bool :=
